@@ -45,9 +45,13 @@ impl Controller for FormUrlEncodedEnctypePostMethodController {
             ];
         }
 
-        // direct unwrap due to prior utf-8 encoding check
         // here is the form data, as an example here it is printed in the response body
-        let form : HashMap<String, String> = FormUrlEncoded::parse(_request.body.clone()).unwrap();
+        let boxed_form = FormUrlEncoded::parse(_request.body.clone());
+        if boxed_form.is_err() {
+            // not valid utf-8, the 400 response is prepared above
+            return response;
+        }
+        let form : HashMap<String, String> = boxed_form.unwrap();
 
         let mut formatted_list : Vec<String> = vec![];
         for (key, value) in form.into_iter() {
@@ -107,9 +111,13 @@ impl FormUrlEncodedEnctypePostMethodController {
             ];
         }
 
-        // direct unwrap due to prior utf-8 encoding check
         // here is the form data, as an example here it is printed in the response body
-        let form : HashMap<String, String> = FormUrlEncoded::parse(_request.body.clone()).unwrap();
+        let boxed_form = FormUrlEncoded::parse(_request.body.clone());
+        if boxed_form.is_err() {
+            // not valid utf-8, the 400 response is prepared above
+            return response;
+        }
+        let form : HashMap<String, String> = boxed_form.unwrap();
 
         let mut formatted_list : Vec<String> = vec![];
         for (key, value) in form.into_iter() {
